@@ -197,6 +197,7 @@ impl RtpsWriterProxy {
                 }
             }
         }
+        self.delete_obsolete_data_fragments();
     }
 
     /// Same as irrelevant_change_set for every sequence number in first..=last, in constant time.
@@ -219,6 +220,15 @@ impl RtpsWriterProxy {
                 }
             }
         }
+        self.delete_obsolete_data_fragments();
+    }
+
+    // Fragments of changes that will never be presented anymore (irrelevant or lost) are of no use. Keeping them
+    // would also stop the ACKNACK from requesting the changes that follow them.
+    fn delete_obsolete_data_fragments(&mut self) {
+        let available_changes_max = self.available_changes_max();
+        self.frag_buffer
+            .retain(|f| f.writer_sn() > available_changes_max);
     }
 
     pub fn lost_changes_update(&mut self, first_available_seq_num: SequenceNumber) {
@@ -228,6 +238,7 @@ impl RtpsWriterProxy {
         // change.status := LOST;
         // }
         self.first_available_seq_num = first_available_seq_num;
+        self.delete_obsolete_data_fragments();
     }
 
     pub fn missing_changes(&self) -> impl Iterator<Item = SequenceNumber> {
